@@ -176,7 +176,7 @@ func (r *Result) Finish(c *Ctx, verifDir string, seed int, wall float64, meta Pr
 	// floors
 	for rule, n := range r.floors {
 		if got := r.count(rule); got < n {
-			r.Errorf("rule %s examined %d instances, floor is %d (a rule that matches too little passes vacuously)", rule, got, n)
+			r.Shortfall(c, rule, fmt.Sprintf("rule %s examined %d instances, floor is %d (a rule that matches too little passes vacuously)", rule, got, n))
 		}
 	}
 	known, _, err := loadKnown(filepath.Join(verifDir, "known_findings.txt"))
@@ -348,4 +348,19 @@ func (r *Result) applyExceptions() {
 			}
 		}
 	}
+}
+
+// Shortfall: a rule found fewer instances of its pattern than the reviewed tree has. On a tree whose functions are those of
+// the review this is a checker error (the rule has lost its anchor). When functions were introduced since the review, the
+// instances may have moved into them: the shortfall is then recorded as a not-decided obligation naming those functions.
+func (r *Result) Shortfall(c *Ctx, rule, msg string) {
+	if news := c.postReviewFunctions(); len(news) > 0 {
+		shown := news
+		if len(shown) > 4 {
+			shown = shown[:4]
+		}
+		r.Undec(rule, "instances#fewer-than-reviewed", "", msg+"; functions introduced after the review: "+strings.Join(shown, ", "))
+		return
+	}
+	r.Errorf("%s", msg)
 }
